@@ -336,3 +336,15 @@ Example C03_guard_nonvacuous :
   | _ => False
   end.
 Proof. vm_compute. split; [reflexivity|]. right. right. left. reflexivity. Qed.
+
+(* hook lists edited while the request runs: before hook 0 removes itself (no effect on
+   this emit: hook 1 still runs), the handler removes after hook 0 and adds a new after
+   hook 14: the after emit calls 14, 2, 1 *)
+Example C03_hook_edits_nonvacuous :
+  let ok := HRet OFalsy in
+  let p := mkProg [mkH [MHook (HERemove false 0)] ok; mkH [] ok]
+                  [mkH [] ok; mkH [] ok; mkH [] ok]
+                  (ROk [] (mkH [MHook (HERemove true 0); MHook (HEAdd true 14)] (HRet (OStr (lit "x"))))) in
+  fst (fst (handle p))
+  = [EvHookB 0; EvHookB 1; EvRouted; EvHandler; EvHookA 14; EvHookA 2; EvHookA 1].
+Proof. vm_compute. reflexivity. Qed.
